@@ -24,7 +24,7 @@ func rulesC01(c *Ctx, r *Report) {
 	}
 	r.analysed(where)
 	n := ruleFmtConst(c, r, w)
-	r.floor("FMT-CONST", n, 2, "Fprintf calls in fasta Write")
+	r.floor("FMT-CONST", n, 1, "Fprintf calls in fasta Write")
 	s := newSymb(w)
 	calls := fmtCallsIn(w)
 	// W-HDR: first write
